@@ -78,6 +78,15 @@ def single_estimators(d, ctx):
     if not complex_:
         offset = d.choice([1.0, 1.0, 1e2, 1e4, 1e6])
         y = y + offset * rng.normal(size=(*lead, 1, D))
+    if which == 'cacg' and d.aux(90).integers(0, 3) == 0:
+        # strongly directional data: one direction 20..80 dB above the rest, so
+        # that the smallest eigenvalue of the estimate lies between the
+        # documented floor (1e-10) and the larger floors drawn below
+        aux = d.aux(91)
+        sigma = 10.0 ** aux.uniform(-4, -1, size=(*lead, 1, 1))
+        proto = gen.unit(gen.cnormal(aux, (*lead, 1, D)))
+        y = proto * gen.cnormal(aux, (*lead, N, 1)) + sigma * gen.cnormal(aux, (*lead, N, D))
+        ctx.label('directional-data')
     sal, skind = (None, 'none') if which.startswith('cacg') else \
         _weights(d, rng, lead, N)
     ctx.describe(trainer=which, lead=lead, D=D, N=N, saliency=skind)
@@ -102,7 +111,10 @@ def single_estimators(d, ctx):
                           'ccsg-covariance', rtol=1e-10, atol=1e-12)
     elif which == 'watson':
         mc = d.choice([500, 100, 20, 5])
-        m = ctx.lib(dist.ComplexWatsonTrainer(max_concentration=mc).fit, y, saliency=sal)
+        # the documented default (500) is also exercised by leaving it out
+        tkw = {} if mc == 500 and d.aux(87).integers(0, 2) == 0 else dict(max_concentration=mc)
+        ctx.label('defaults-omitted' if not tkw else 'explicit-options')
+        m = ctx.lib(dist.ComplexWatsonTrainer(**tkw).fit, y, saliency=sal)
         for idx in np.ndindex(*lead):
             z = oe.unit(y[idx])
             S = oe.weighted_scatter(z, w_all[idx])
@@ -115,8 +127,11 @@ def single_estimators(d, ctx):
                               'watson-mode-is-principal-eigenvector', atol=1e-8)
     elif which == 'vmf':
         lo, hi = d.choice([(1e-10, 500), (1e-3, 100), (1.0, 20), (0.5, 3.0)])
-        m = ctx.lib(dist.VonMisesFisherTrainer().fit, y, saliency=sal,
-                    min_concentration=lo, max_concentration=hi)
+        fkw = dict(min_concentration=lo, max_concentration=hi)
+        if (lo, hi) == (1e-10, 500) and d.aux(88).integers(0, 2) == 0:
+            fkw = {}            # the documented defaults, left out
+        ctx.label('defaults-omitted' if not fkw else 'explicit-options')
+        m = ctx.lib(dist.VonMisesFisherTrainer().fit, y, saliency=sal, **fkw)
         for idx in np.ndindex(*lead):
             mean, kappa, r_bar = oe.vmf_ml(y[idx], w_all[idx], lo, hi)
             require_close(np.asarray(m.mean)[idx], mean, 'vmf-mean', atol=1e-10)
@@ -127,9 +142,24 @@ def single_estimators(d, ctx):
         floor = d.choice([1e-10, 1e-3, 3e-2])
         herm = d.bool()
         n = d.int(1, 8)
-        m = ctx.lib(dist.ComplexAngularCentralGaussianTrainer().fit, y,
-                    covariance_norm=norm, eigenvalue_floor=floor,
-                    hermitize=herm, iterations=n)
+        fkw = dict(covariance_norm=norm, eigenvalue_floor=floor, hermitize=herm,
+                   iterations=n)
+        aux = d.aux(89)
+        if aux.integers(0, 3) == 0:
+            # documented defaults (hermitize=True, covariance_norm='eigenvalue',
+            # eigenvalue_floor=1e-10, iterations=10): each option that is left
+            # out takes the documented value in the reference
+            documented = dict(covariance_norm='eigenvalue', eigenvalue_floor=1e-10,
+                              hermitize=True, iterations=10)
+            for k in sorted(documented):
+                if aux.integers(0, 2) == 0:
+                    fkw.pop(k)
+            norm = fkw.get('covariance_norm', documented['covariance_norm'])
+            floor = fkw.get('eigenvalue_floor', documented['eigenvalue_floor'])
+            herm = fkw.get('hermitize', documented['hermitize'])
+            n = fkw.get('iterations', documented['iterations'])
+            ctx.label('defaults-omitted')
+        m = ctx.lib(dist.ComplexAngularCentralGaussianTrainer().fit, y, **fkw)
         ctx.label(f'norm={norm}', f'floor={floor}')
         for idx in np.ndindex(*lead):
             z = oe.unit(y[idx])
@@ -137,8 +167,12 @@ def single_estimators(d, ctx):
             for _ in range(n):
                 B = oe.cacg_normalise(oe.tyler_step(z, np.ones(N), q, D), norm, floor, herm)
                 q = np.maximum(oe.quadratic_form(z, B), np.finfo(float).tiny)
+            lamB = np.linalg.eigvalsh(B)
+            condB = float(lamB[-1] / max(lamB[0], 1e-300))
+            # every iteration solves with B: rounding is amplified by cond(B)
             require_close(np.asarray(m.covariance)[idx], B, 'cacg-tyler-iteration',
-                          rtol=1e-7, atol=1e-10, what=f'{n} iterations norm={norm}')
+                          rtol=1e-7 + 1e-14 * condB * n, atol=1e-10,
+                          what=f'{n} iterations norm={norm} floor={floor} cond={condB:.1e}')
     else:
         # repeated application converges to B ~ (D/N) sum z z^H / (z^H B^-1 z)
         m = ctx.lib(dist.ComplexAngularCentralGaussianTrainer().fit, y, iterations=500)
